@@ -17,6 +17,8 @@
     schedule of their atomic steps, all obtain the eager result (PARTIAL: the model assumes
     attribute reads/writes are atomic and compilation touches thread-local data only).
 -/
+import Mashu.Props.C12
+import Mashu.Generated
 import Mashu.Lazy
 import Mashu.Generated
 namespace Mashu.Lazy
@@ -457,3 +459,150 @@ theorem thread_finishes (k : Cls) (main : Body) (t : Th) (hm : main = .stub k.p 
   | done o => simp [thStep]
 
 end Mashu.Lazy
+
+namespace Mashu.DiscrF
+open Mashu.Discr
+
+/-! ### threads: the rescan as atomic actions of several threads -/
+
+/-- the two kinds of writes a rescanning thread performs, one at a time -/
+inductive Act
+  | build (c : Nat) (f : Fmt)                              -- compile class c's own method for format f
+  | reg (k : Fmt) (root : Nat) (t : String) (c : Nat)      -- variants[k][root][t] = c
+  deriving Repr
+
+def act (st : State) : Act → State
+  | .build c f => { st with compiled := (c, f) :: st.compiled }
+  | .reg k root t c => { st with registry := (k, root, t, c) :: st.registry }
+
+/-- `ok b acts`: every registration is preceded (in this very sequence, or among the methods `b`
+    known to exist before it starts) by the build of that class's method for that format -/
+def ok : List (Nat × Fmt) → List Act → Bool
+  | _, [] => true
+  | b, .build c f :: r => ok ((c, f) :: b) r
+  | b, .reg k _ _ c :: r => b.any (fun e => e.1 == c && e.2 == k) && ok b r
+
+/-- what one thread does for the tagged variants `vs` of root `root` in format `f` since fix F37:
+    build, THEN register -/
+def programFixed (f : Fmt) (root : Nat) : List (Nat × String) → List Act
+  | [] => []
+  | (c, t) :: vs => .build c f :: .reg f root t c :: programFixed f root vs
+
+/-- … and before it: register, then build -/
+def programOld (f : Fmt) (root : Nat) : List (Nat × String) → List Act
+  | [] => []
+  | (c, t) :: vs => .reg f root t c :: .build c f :: programOld f root vs
+
+theorem ok_mono : ∀ (acts : List Act) (b b' : List (Nat × Fmt)), (∀ x ∈ b, x ∈ b') → ok b acts = true → ok b' acts = true
+  | [], _, _, _, _ => rfl
+  | .build c f :: r, b, b', hs, h => by
+      simp only [ok] at h ⊢
+      exact ok_mono r _ _ (by intro x hx; rcases List.mem_cons.mp hx with rfl | hx'; exact List.mem_cons_self; exact List.mem_cons_of_mem _ (hs x hx')) h
+  | .reg k root t c :: r, b, b', hs, h => by
+      simp only [ok, Bool.and_eq_true, List.any_eq_true] at h ⊢
+      obtain ⟨⟨e, he, hc⟩, hr⟩ := h
+      exact ⟨⟨e, hs e he, hc⟩, ok_mono r b b' hs hr⟩
+
+theorem programFixed_ok (f : Fmt) (root : Nat) : ∀ (vs : List (Nat × String)) (b : List (Nat × Fmt)), ok b (programFixed f root vs) = true
+  | [], _ => rfl
+  | (c, t) :: vs, b => by
+      simp only [programFixed, ok, Bool.and_eq_true, List.any_eq_true]
+      exact ⟨⟨(c, f), List.mem_cons_self, by simp⟩, programFixed_ok f root vs _⟩
+
+/-- all ways of interleaving two sequences, each keeping its own order -/
+inductive Interleave {α} : List α → List α → List α → Prop
+  | nil : Interleave [] [] []
+  | left (a : α) {p q r : List α} : Interleave p q r → Interleave (a :: p) q (a :: r)
+  | right (a : α) {p q r : List α} : Interleave p q r → Interleave p (a :: q) (a :: r)
+
+theorem ok_interleave {p q r : List Act} (h : Interleave p q r) : ∀ (b : List (Nat × Fmt)),
+    ok b p = true → ok b q = true → ok b r = true := by
+  induction h with
+  | nil => intro b _ _; rfl
+  | left a _ ih =>
+    intro b hp hq
+    cases a with
+    | build c f =>
+      simp only [ok] at hp ⊢
+      exact ih _ hp (ok_mono _ b _ (fun x hx => List.mem_cons_of_mem _ hx) hq)
+    | reg k root t c =>
+      simp only [ok, Bool.and_eq_true] at hp ⊢
+      exact ⟨hp.1, ih b hp.2 hq⟩
+  | right a _ ih =>
+    intro b hp hq
+    cases a with
+    | build c f =>
+      simp only [ok] at hq ⊢
+      exact ih _ (ok_mono _ b _ (fun x hx => List.mem_cons_of_mem _ hx) hp) hq
+    | reg k root t c =>
+      simp only [ok, Bool.and_eq_true] at hq ⊢
+      exact ⟨hq.1, ih b hp hq.2⟩
+
+/-- every prefix-closed execution of an `ok` sequence keeps the invariant the fast path relies on -/
+theorem acts_inv : ∀ (acts : List Act) (b : List (Nat × Fmt)) (st : State),
+    ok b acts = true → (∀ x ∈ b, hasOwn st.compiled x.1 x.2 = true) → Inv st → Inv (acts.foldl act st)
+  | [], _, _, _, _, h => h
+  | .build c f :: r, b, st, hok, hb, h => by
+      simp only [ok] at hok
+      simp only [List.foldl_cons]
+      apply acts_inv r ((c, f) :: b) _ hok
+      · intro x hx
+        rcases List.mem_cons.mp hx with rfl | hx'
+        · simp [act, hasOwn]
+        · exact hasOwn_mono (fun y hy => List.mem_cons_of_mem _ hy) _ _ (hb x hx')
+      · intro e he
+        exact hasOwn_mono (fun y hy => List.mem_cons_of_mem _ hy) _ _ (h e he)
+  | .reg k root t c :: r, b, st, hok, hb, h => by
+      simp only [ok, Bool.and_eq_true, List.any_eq_true] at hok
+      obtain ⟨⟨e, he, hc⟩, hr⟩ := hok
+      simp only [List.foldl_cons]
+      apply acts_inv r b _ hr
+      · intro x hx; exact hb x hx
+      · intro x hx
+        simp only [act] at hx ⊢
+        rcases List.mem_cons.mp hx with rfl | hx'
+        · have := hb e he
+          simp only [Bool.and_eq_true, beq_iff_eq] at hc
+          rw [← hc.1, ← hc.2]; exact this
+        · exact h x hx'
+
+/-- **C14, threads (discriminated unions).**  Two threads rescanning at once, their writes
+    interleaved in ANY way: at every moment every registered class has a method of its own, so no
+    fast-path call can run a method inherited from the parent (`step_own`). -/
+theorem concurrent_rescans_keep_inv (f g : Fmt) (root root' : Nat) (vs ws : List (Nat × String)) (sched : List Act)
+    (h : Interleave (programFixed f root vs) (programFixed g root' ws) sched) (st : State) (hst : Inv st) :
+    ∀ n, Inv ((sched.take n).foldl act st) := by
+  intro n
+  have hok : ok [] sched = true := ok_interleave h [] (programFixed_ok f root vs []) (programFixed_ok g root' ws [])
+  have hpre : ok [] (sched.take n) = true := by
+    have : ∀ (l : List Act) (b : List (Nat × Fmt)) (n : Nat), ok b l = true → ok b (l.take n) = true := by
+      intro l
+      induction l with
+      | nil => intro b n _; simp [ok]
+      | cons a l ih =>
+        intro b n hl
+        cases n with
+        | zero => simp [ok]
+        | succ n =>
+          cases a with
+          | build c f => simp only [List.take_succ_cons, ok] at hl ⊢; exact ih _ n hl
+          | reg k r t c => simp only [List.take_succ_cons, ok, Bool.and_eq_true] at hl ⊢; exact ⟨hl.1, ih _ n hl.2⟩
+    exact this sched [] n hok
+  exact acts_inv _ [] st hpre (by intro x hx; simp at hx) hst
+
+/-- the order before F37 (register, then build) breaks the invariant after its very first write … -/
+theorem register_first_breaks_inv :
+    ¬ Inv ((programOld 0 0 [(1, "v")]).take 1 |>.foldl act {}) := by
+  intro h
+  have := h (0, 0, "v", 1) (by simp [programOld, act])
+  simp [programOld, act, hasOwn] at this
+
+/-- … which is exactly the window in which another thread's fast path runs the parent's method -/
+example : ok [] (programOld 0 0 [(1, "v")]) = false := by decide
+example : ok [] (programFixed 0 0 [(1, "v"), (2, "w")]) = true := by decide
+
+
+/-- the order of the two writes in `DiscriminatedUnionUnpackerBuilder._add_body` of /repo on this run -/
+theorem rescan_order_pinned : Generated.variantRegisteredAfterBuild = true := by decide
+
+end Mashu.DiscrF
